@@ -349,6 +349,10 @@ pub fn c08(known: &Known) -> CoreScenario {
         format!("$SYS/clients/{}/?", cid(A)),
         s("$SYS/clients/?"),
         s("$SYS/"),
+        // other spellings of the client's own id are other keys, not its own entries
+        format!("$SYS/clients/{}/clientName", cid(A).simple()),
+        format!("$SYS/clients/{{{}}}/graveGoods", cid(A)),
+        format!("$SYS/clients/urn:uuid:{}/lastWill", cid(A)),
     ];
     let mut ops = vec![];
     for k in &shapes {
